@@ -580,6 +580,38 @@ def step (st : St) (line : String) : St × String :=
         else "create:errno:" ++ hk.eo
       (st, s!"seq={showSeqH dstQ hk h.acts} res={res} dst={showStateK fs dstQ} tmp={showTmpK fs h.acts} reader={if readerOkK um dstQ fs0 h.acts then "ok" else "BAD"} target={showNode (fs tgtQ)}")
     | _, _, _, _, _ => (st, "bad-op")
+  | ["tracek", old, um, mode, "wf", pcs, fault, cbm] =>
+    -- WriteFileWithMode on every kind of destination: Safe.writeFileK on the file system with node kinds
+    match parseOldK? old, parseOct? um, parseOct? mode, parsePieces? pcs, parseFault? fault, parseCb? cbm with
+    | some (fs0, _), some um, some mode, some sizes, some (flt, e), some cb =>
+      let pieces := mkPieces sizes
+      let tmp := codeStr (tempName tmpdirS (dirOf dstS) safePattern 0)
+      let hk := kernelErrnos fs0 { ew := e, ec := e, er := e }
+      match createK tmp dstQ parQ mode fs0 with
+      | (none, acts) =>
+        (st, s!"seq={showSeqH dstQ hk acts} res=errno:{hk.eo} dst={showStateK fs0 dstQ} tmp=absent reader=ok target={showNode (fs0 tgtQ)}")
+      | (some _, _) =>
+        let r := writeFileK fs0 tmp dstQ st.N mode pieces cb flt
+        let acts := osRenameView um fs0 (r.2.map Act2.base)
+        let fs := runK um fs0 acts
+        let res := match r.1 with
+          | .errno => "errno:" ++ (match flt with | .write _ => hk.ew | .close => hk.ec | _ => hk.er)
+          | x => showRes x ""
+        (st, s!"seq={showSeqH dstQ hk acts} res={res} dst={showStateK fs dstQ} tmp={showTmpK fs acts} reader={if readerOkK um dstQ fs0 acts then "ok" else "BAD"} target={showNode (fs tgtQ)}")
+    | _, _, _, _, _, _ => (st, "bad-op")
+  | ["killk", old, um, mode, "wf", pcs, fault, cbm, name, j] =>
+    match parseOldK? old, parseOct? um, parseOct? mode, parsePieces? pcs, parseFault? fault, parseCb? cbm, j.toNat? with
+    | some (fs0, _), some um, some mode, some sizes, some (flt, e), some cb, some j =>
+      let pieces := mkPieces sizes
+      let tmp := codeStr (tempName tmpdirS (dirOf dstS) safePattern 0)
+      let hk := kernelErrnos fs0 { ew := e, ec := e, er := e }
+      let all := match createK tmp dstQ parQ mode fs0 with
+        | (none, acts) => acts
+        | (some _, _) => osRenameView um fs0 ((writeFileK fs0 tmp dstQ st.N mode pieces cb flt).2.map Act2.base)
+      let acts := all.take (killIndex2 all name j)
+      let fs := runK um fs0 acts
+      (st, s!"seq={showSeqH dstQ hk acts} dst={showStateK fs dstQ} tmp={showTmpK fs acts} reader={if readerOkK um dstQ fs0 all then "ok" else "BAD"} target={showNode (fs tgtQ)}")
+    | _, _, _, _, _, _, _ => (st, "bad-op")
   | ["hkillk", old, um, mode, ops, faults, name, j] =>
     match parseOldK? old, parseOct? um, parseOct? mode, parseToks? ops, parseHFaults? faults, j.toNat? with
     | some (fs0, pm), some um, some mode, some toks, some hf, some j =>
